@@ -33,6 +33,9 @@ def cfg_fft(tier, seed):
                 pick = [None] + rng.sample(shapes[1:], min(len(shapes) - 1, 2 if tier == 'quick' else 6))
                 for shp in pick:
                     out.append({'N': [Nr, Nc], 'n': [nr, nc], 'os': os, 'shape': None if shp is None else list(shp), 'kind': 'value'})
+                    if shp is None and nr * nc >= 2 and Nr * Nc <= 16:
+                        # one field whose bounding box is off the array centre (a global mask in a corner)
+                        out.append({'N': [Nr, Nc], 'n': [nr, nc], 'os': os, 'shape': None, 'kind': 'value', 'seg': 'corner'})
                     if shp is None and nc % 2 == 0 and Nr * Nc <= 16:
                         # the same pupil as two equal-shape segments (several input fields)
                         out.append({'N': [Nr, Nc], 'n': [nr, nc], 'os': os, 'shape': None, 'kind': 'value', 'seg': True})
@@ -54,7 +57,12 @@ def _wave(W, cfg, opd=True):
     du = (lam * f * os / (Nr * dx[0]), lam * f * os / (Nc * dx[1]))
     kw = {'opd': W.reals('o', (nr, nc))} if opd else {}
     mask = rnp.ones((nr, nc), dtype=int)
-    if cfg.get('seg') == 'diag':
+    if cfg.get('seg') == 'corner':
+        mask = rnp.zeros((nr, nc), dtype=int)
+        mask[nr - 1, nc - 1] = 1
+        if nr > 1 and nc > 1:
+            mask[nr - 1, nc - 2] = 1
+    elif cfg.get('seg') == 'diag':
         # two interleaved segments whose bounding boxes coincide
         rr, cc = rnp.mgrid[0:nr, 0:nc]
         mask = rnp.stack([((rr + cc) % 2 == 0).astype(int), ((rr + cc) % 2 == 1).astype(int)])
